@@ -13,7 +13,7 @@ from vf import common, irprog
 PROP = 'C39'
 LEVEL = 'other'
 CHUNK = 2
-SKELS = ['straight', 'diamond', 'nested-diamond', 'store-reload', 'merge-save-restore', 'swap-diamond']
+SKELS = ['straight', 'diamond', 'nested-diamond', 'store-reload', 'merge-save-restore', 'swap-diamond', 'nested-cond']
 
 META = dict(
     functions=["miasm.analysis.depgraph.DependencyGraph.get / _track_exprs / _compute_intrablock / _compute_interblock_dep",
@@ -21,9 +21,9 @@ META = dict(
                "_gen_path_constraints", "miasm.expression.expression_helper.possible_values / CondConstraint*.to_constraint",
                "miasm.ir.symbexec (as used by emul)", "miasm.ir.translators.z3_ir (implicit constraints)"],
     stubs=[],
-    bounds=dict(quick=dict(programs="8 per skeleton x 6 loop-free skeletons", targets="registers {EAX}, {EBX, ECX}, {EDX} at the exit "
+    bounds=dict(quick=dict(programs="8 per skeleton x 7 loop-free skeletons (incl. nested conditional destinations)", targets="registers {EAX}, {EBX, ECX}, {EDX} at the exit "
                            "block and the last store before it", query_timeout_s=8),
-                thorough=dict(programs="60 per skeleton x 6 loop-free skeletons", targets="same", query_timeout_s=60)),
+                thorough=dict(programs="60 per skeleton x 7 loop-free skeletons", targets="same", query_timeout_s=60)),
     outside=["graphs with loops (emul is documented as unsound for loop variants)", "follow_call / follow_mem switched off",
              "targets other than those listed"],
     assumptions=["non-aliasing of different symbolic bases (as the symbolic engine assumes)", "implicit mode: memory of the z3 "
@@ -36,6 +36,23 @@ META = dict(
 
 
 def gen(rnd, sk):
+    if sk == 'nested-cond':
+        # a destination written as a nested conditional whose two levels share a target: IRDst = c1 ? B1 : (c2 ? B1 : B2)
+        # (and the mirrored form); the path constraints of an edge are then a disjunction over both levels
+        g = irprog.Gen(rnd)
+        K, L, R = irprog.K, irprog.L, irprog.R
+        c1, c2 = g.cond(), g.cond()
+        B = {}
+        if rnd.random() < 0.5:
+            dst = K(c1, L('B1'), K(c2, L('B1'), L('B2')))
+        else:
+            dst = K(c1, K(c2, L('B2'), L('B1')), L('B2'))
+        B['B0'] = g.body(1, 2) + [[(irprog.IRDST, dst)]]
+        B['B1'] = g.body(1, 2) + irprog.jmp('J')
+        B['B2'] = g.body(1, 2) + irprog.jmp('J')
+        B['J'] = g.body(0, 1) + irprog.jmp('EX')
+        B['EX'] = irprog.dump_regs_block(g.regs) + irprog.RETBLK
+        return dict(head='B0', blocks=B, skeleton=sk)
     if sk != 'swap-diamond':
         return irprog.gen_program(rnd, sk, dump=True)
     g = irprog.Gen(rnd)
